@@ -404,8 +404,7 @@ def Wrapper.validPath : Wrapper → List Nat → Bool
   | .multiple n, p => match p with | [k] => k < n | _ => false
   | .nested last, p =>
     match p with
-    | [k] => k < 15
-    | k :: p' => k == 15 && last.validPath p'
+    | k :: p' => if k < 15 then p'.isEmpty else k == 15 && last.validPath p'
     | [] => false
 
 /-! ### The per-key `match locale` (`create_locale_impl`, `create_locale_string_impl`) -/
@@ -419,6 +418,11 @@ def armPats (compute : List (Str × List Str)) (d : Str) : List Str :=
     a `match` is rejected by rustc as non-exhaustive). -/
 def dispatch (compute : List (Str × List Str)) (defining : List Str) (l : Str) : Option Str :=
   defining.reverse.find? (fun d => (armPats compute d).contains l)
+
+/-- the literal accessors (`load_locales/mod.rs: create_locale_type_inner`, `literal_accessors`)
+    emit the same arms in declaration order -/
+def dispatchLit (compute : List (Str × List Str)) (defining : List Str) (l : Str) : Option Str :=
+  defining.find? (fun d => (armPats compute d).contains l)
 
 /-- index given to `either_wrapper.wrap` for the arm of `d` (position before `.rev()`) -/
 def armIndex (defining : List Str) (d : Str) : Nat := defining.idxOf d
@@ -496,5 +500,75 @@ def buildDisplay (w : LitWrapper) : Str := w.val.display
 /-- `inner`: the const accessor (the raw value; its text is its `Display`) -/
 def inner (w : LitWrapper) : Lit := w.val
 end LitWrapper
+
+/-- the literal accessor arm `LitWrapper::new(#lit)` with `#lit = to_token_stream(value)`:
+    a string literal is fetched from the table at run time / const-eval time -/
+def litAccessor (tbl : List Str) (v : PV) : Option LitWrapper :=
+  match toTokenStream v with
+  | .ok (.str i) => some ⟨.str (tbl.getD i []) (some i)⟩
+  | .ok (.lit l) => some ⟨l⟩
+  | _ => none
+
+/-! ### The accessor of one key, and the nine macro flavours (`t_macro/mod.rs`)
+
+`t!`/`tu!`/`td!` × view/`_string`/`_display` all expand to
+`get_key(input).k₁().k₂()….builder_fn()…build_fn()`; they differ in where the locale comes from
+(`InputType`) and in which back-end runs (`OutputType`). -/
+
+inductive OutputType | view | string | display deriving DecidableEq, Repr
+inductive InputType | locale | context | untracked deriving DecidableEq, Repr
+
+/-- what the generator knows about one (non-literal) key -/
+structure KeyArms where
+  /-- locales whose value for the key is not `Default`, in declaration order -/
+  defining : List Str
+  /-- `DefaultedLocales::compute()` of the key -/
+  compute : List (Str × List Str)
+  /-- the key's value in a defining locale -/
+  value : Str → PV
+  /-- the string table of that locale -/
+  table : Str → List Str
+
+/-- `builder().…build().into_view()` / `display_builder().…build_string()` / `…build_display()`
+    at locale `l`: the `match locale` of `into_view_impl` / `display_impl`, then the arm.
+    `none`: no arm (does not compile) or the generator panicked. -/
+def KeyArms.text (k : KeyArms) (ρ : Eval.Env) (o : OutputType) (l : Str) : Option Str :=
+  match dispatch k.compute k.defining l with
+  | none => none
+  | some d =>
+    match o with
+    | .view =>
+      match toTokenStream (k.value d) with
+      | .ok e => some (renderView (k.table d) ρ e)
+      | _ => none
+    | _ =>
+      match asStringImpl (k.value d) with
+      | .ok e => some (renderDisplay (k.table d) ρ e)
+      | _ => none
+
+/-- what the first macro argument is: a context (its current locale, its scope prefix) or a
+    (possibly scoped) locale value -/
+inductive Source where
+  | ctx (cell : Str) (pfx : List Str)
+  | locale (sl : ScopedLocale)
+
+/-- `I18nContext::get_keys` / `get_keys_untracked` / `Locale::get_keys`: all three are
+    `LocaleKeys::from_locale(<the locale>)` at the scope type; a mismatch of macro and argument
+    kind does not type-check -/
+def Source.resolve : InputType → Source → Option ScopedLocale
+  | .context, .ctx c p => some ⟨c, p⟩
+  | .untracked, .ctx c p => some ⟨c, p⟩
+  | .locale, .locale sl => some sl
+  | _, _ => none
+
+/-- the text of `<macro>!(src, q₁.q₂.…, args)`; `root` is the root keys struct -/
+def flavourText (root : KTree KeyArms) (ρ : Eval.Env) (i : InputType) (o : OutputType)
+    (src : Source) (q : List Str) : Option Str :=
+  match src.resolve i with
+  | none => none
+  | some sl =>
+    match (root.lookup sl.pfx).bind (·.lookup q) with
+    | some (.leaf k) => k.text ρ o sl.locale
+    | _ => none
 
 end I18nVerif.Codegen
